@@ -25,8 +25,29 @@ REPO = os.environ.get('VERIF_REPO', '/repo')
 sys.path.insert(0, os.path.join(VERIF, 'tools'))
 
 COQC_TIMEOUT = 600
-FORBIDDEN = re.compile(r'\b(Admitted|admit|Axiom|Axioms|Parameter|Parameters|Conjecture|Hypothesis|'
-                       r'Unset\s+Guard|bypass_check|type-in-type|impredicative-set|Admit\s+Obligations)\b')
+FORBIDDEN = re.compile(r'\b(Admitted|admit|Axiom|Axioms|Parameter|Parameters|Conjecture|Conjectures|'
+                       r'Unset\s+Guard|bypass_check|type-in-type|impredicative-set|Admit\s+Obligations|'
+                       r'Unset\s+Positivity|Unset\s+Universe)\b')
+SECTION_ONLY = re.compile(r'^\s*(?:Local\s+|Global\s+)?(Variable|Variables|Hypothesis|Hypotheses|Context)\b')
+
+
+def forbidden_in(txt):
+    """Declarations that would add an axiom: the FORBIDDEN words anywhere (comments stripped), and
+    Variable/Hypothesis/Context outside any Section (inside a Section they are discharged)."""
+    txt = re.sub(r'\(\*.*?\*\)', '', txt, flags=re.S)
+    out = [m.group(0) for m in FORBIDDEN.finditer(txt)]
+    depth = 0
+    for sentence in re.split(r'\.\s', txt):
+        st = sentence.strip()
+        if re.match(r'Section\s+\w+', st):
+            depth += 1
+        elif re.match(r'End\s+\w+', st) and depth > 0:
+            depth -= 1
+        else:
+            m = SECTION_ONLY.match(st)
+            if m and depth == 0:
+                out.append(m.group(1) + ' outside a Section')
+    return out
 
 
 def sh(cmd, cwd=None, timeout=COQC_TIMEOUT, env=None):
@@ -121,9 +142,8 @@ class Check:
             for f in files:
                 if f.endswith('.v'):
                     p = os.path.join(root, f)
-                    txt = re.sub(r'\(\*.*?\*\)', '', open(p).read(), flags=re.S)
-                    for m in FORBIDDEN.finditer(txt):
-                        bad.append(f'{os.path.relpath(p, COQ)}: {m.group(0)}')
+                    for w in forbidden_in(open(p).read()):
+                        bad.append(f'{os.path.relpath(p, COQ)}: {w}')
         self.obligations.append({'name': 'no Admitted/admit/Axiom/Parameter/disabled checks in the development',
                                  'kind': 'hygiene', 'ok': not bad, 'detail': '; '.join(bad)})
         return not bad
